@@ -42,6 +42,8 @@ ACTIVITIES = {
     # a service left behind: a callback registered on a channel whose object is gone, the body itself has returned
     "callback_service": ("c = channel.gateway.newchannel()\nchannel.send(c)\nc.setcallback(lambda item: None)\ndel c\n"
                          "c2 = channel.gateway.newchannel()\nc2.setcallback(lambda item: None, endmarker=None)\ndel c2\nchannel.send('started')\n"),
+    # the initiator keeps sending large frames to this worker (see main): whenever it disappears, a frame is in flight
+    "inbound_flood": "channel.setcallback(lambda item: None)\nchannel.send('started')\nimport time\ntime.sleep(100000)\n",
     "stopped": "channel.send('started')\nchannel.receive()\n",
     "killed": "channel.send('started')\nchannel.receive()\n",
 }
@@ -111,6 +113,17 @@ def main():
                 chans.append(first)  # the sub-channel whose remote end carries the failing callback
                 first = ch.receive(30)
             assert first == "started"
+            if act == "inbound_flood":
+                import threading
+
+                def flood(ch=ch):
+                    try:
+                        while True:
+                            ch.send(b"z" * 4000000)
+                    except BaseException:  # noqa
+                        pass
+
+                threading.Thread(target=flood, daemon=True).start()
     # signals last: a stopped/killed master could not start its sub-gateways' activities any more
     for g in case["gateways"]:
         act = g.get("activity", "idle")
